@@ -6,6 +6,8 @@ import os
 import time
 
 VERIF_ROOT = os.path.dirname(os.path.dirname(os.path.abspath(__file__)))
+# development runs against patched scratch trees write their evidence / replay files elsewhere
+OUT_ROOT = os.environ.get("VERIF_OUT_DIR") or VERIF_ROOT
 
 
 class PropertyViolation(Exception):
@@ -151,7 +153,7 @@ class Recorder:
 
 
 def write_replay(prop, sub, clause, message, case, extra=None):
-    d = os.path.join(VERIF_ROOT, "replays")
+    d = os.path.join(OUT_ROOT, "replays")
     os.makedirs(d, exist_ok=True)
     body = {"property": prop, "subcheck": sub, "clause": clause,
             "message": message, "case": json.loads(canon(case))}
@@ -190,7 +192,7 @@ def write_evidence(prop, tier, seed, level, coverage, assumptions, wall_s, viola
           "wall_s": round(float(wall_s), 3), "violations": int(violations)}
     ev = json.loads(canon(ev))
     validate_evidence(ev)
-    d = os.path.join(VERIF_ROOT, "evidence")
+    d = os.path.join(OUT_ROOT, "evidence")
     os.makedirs(d, exist_ok=True)
     path = os.path.join(d, "%s.json" % prop)
     tmp = path + ".tmp%d" % os.getpid()
